@@ -21,7 +21,8 @@ Fixpoint jls_bits_loop (fuel : nat) (n len : Z) : Z :=
   end.
 Definition jls_bits_len (n : Z) : Z := if n <=? 1 then 1 else jls_bits_loop 64 (n - 1) 0.
 
-Definition clampZ (v lo hi : Z) : Z := if v <? lo then lo else if hi <? v then hi else v.
+(* clamp (T.87 Figure C.3): a value outside [lo,hi] becomes lo *)
+Definition clampZ (v lo hi : Z) : Z := if (v <? lo) || (hi <? v) then lo else v.
 
 (* computeThresholds: the two divisions are explicit *)
 Definition jls_compute_thresholds (maxVal near : Z) : outcome (Z * Z * Z) :=
